@@ -14,7 +14,7 @@ PROP = "C16"
 LEVEL = "exploration"
 RULE = ("interval sets: every ordered selection of <=3 (quick) / <=4 (thorough) distinct intervals with integer ends in 0..4 "
         "(valid, degenerate and inverted), in both insertion orders, plus seeded sets of 3..6 intervals on a "
-        "half-step grid (touching, nested, shuffled). Oracle: construction succeeds iff all start<=end and no two "
+        "half-step grid (touching, nested, shuffled) and sets at large magnitudes (1e9, 1.7e12, 2**53) with unit gaps; the dict the map was built from is mutated right after construction. Oracle: construction succeeds iff all start<=end and no two "
         "closed intervals share a point, else KeyError and only KeyError; for every grid point, midpoint and outside "
         "point lookup == linear scan, `in` agrees (the same map object is probed ascending, descending and in 3 shuffled orders with hits and misses interleaved), len, ascending iteration. distinct_nontrivial = distinct interval "
         "sets with >=2 intervals.")
@@ -53,6 +53,14 @@ def check_case(intervals, probes):
     if got[0] != "ok":
         return "construction", f"ImmutIntervalMap({mapping}) raised {got[1]} although the intervals are valid and disjoint"
     m = got[1]
+    # the map is immutable: later changes of the dict it was built from must not show through
+    src_snapshot = dict(mapping)
+    for k in list(mapping)[:1]:
+        mapping[k] = "changed-after-construction"
+    if len(mapping) > 1:
+        del mapping[list(mapping)[-1]]
+    mapping[(10 ** 6, 10 ** 6 + 1)] = "added-after-construction"
+    mapping = src_snapshot
     if len(m) != len(intervals):
         return "len", f"len -> {len(m)}, {len(intervals)} intervals"
     it = outcome(lambda: list(m))
@@ -141,6 +149,18 @@ def cases(tier, seed):
         for combo in itertools.permutations(ivs, k):
             yield list(combo), probes
     rng = common.rng_for(PROP, seed, "sampled")
+    # large magnitudes with unit gaps (timestamps in ms, counters): exact arithmetic, no tolerance is allowed to creep in
+    for base in (10 ** 9, 1_700_000_000_000, 2 ** 53 - 4000, -10 ** 12):
+        for _ in range(6 if tier == "quick" else 60):
+            out, cur = [], base
+            for _ in range(rng.randint(2, 5)):
+                ln = rng.choice([0, 1, 2, 999])
+                out.append((cur, cur + ln))
+                cur += ln + rng.choice([1, 1, 2, 1000])
+            rng.shuffle(out)
+            ends = sorted({x for iv in out for x in iv})
+            pr = sorted(set(ends + [e + 1 for e in ends] + [e - 1 for e in ends] + [e + 0.5 for e in ends[:3]]))
+            yield out, pr
     for _ in range(3000 if tier == "quick" else 40000):
         n = rng.randint(3, 6)
         style = rng.choice(["random", "touching", "nested", "disjoint"])
